@@ -95,6 +95,9 @@ func c12Run(w *fw.W, idx int) {
 		c12RunValues(w, r, idx)
 	case 1:
 		c12RunSynthetic(w, r)
+		if (idx/3)%25 == 7 {
+			c12RunWindow(w, idx)
+		}
 	default:
 		c12RunCorpus(w, r, corpus, idx)
 	}
